@@ -1,2 +1,363 @@
-(* C03 - placeholder until the pipeline theorems are proved *)
-Require Import WD.Base.Prelude WD.Model.Pipeline.
+(* C03 - every delivered event is justified and correctly typed; single operations meet their contract.
+   Only statements; every proof is `exact <lemma>`.  Definitions: Model/Contract.v
+   (contract, deliver_one, cover, justified, sound_along); proofs: Proofs/ContractProofs.v. *)
+Require Import WD.Base.Prelude WD.Base.BStr WD.Model.SubEvents WD.Model.Emitter WD.Model.Fs WD.Model.Reader
+               WD.Model.DelayQueue WD.Model.Grouping WD.Model.Pipeline WD.Model.Contract.
+Require Import WD.Proofs.ContractProofs WD.Proofs.TieProofs.
+
+(* ================================================================== soundness: shape of what [emit] produces *)
+(* Hold for every item, every configuration, every content oracle - no hypothesis. *)
+
+(* A non-synthetic event is DirModified(dirname p) for a path p the item names, or its File/Dir flavour is
+   `is_directory` of the raw event it was made from (for a pair: of the MOVED_FROM half). *)
+Theorem C03_flavour : forall full rec root ct it e,
+  In e (fst (emit full rec root ct it)) -> ev_synth e = false ->
+  (exists p, In p (item_paths it) /\ e = parent_modified p) \/
+  cls_isdir (ev_cls e) = is_directory (r_mask (item_head it)).
+Proof. exact emit_flavour. Qed.
+Print Assumptions C03_flavour.
+
+(* is_synthetic only for the events of generate_sub_moved_events / generate_sub_created_events: only with a
+   recursive watch, only for a directory pair / a directory MOVED_TO, and then (C14) the event names a real
+   descendant [rel] of the directory found under the new name: dest = new/rel and src = old/rel - the same
+   relative path under the old name. *)
+Theorem C03_synthetic_only_descendants : forall full rec root ct it e,
+  In e (fst (emit full rec root ct it)) -> ev_synth e = true ->
+  rec = true /\ is_directory (r_mask (item_head it)) = true /\
+  ((exists f t, it = Pair f t /\
+      (r_path f <> [] -> r_path t <> [] -> last_is_sep (r_path t) = false ->
+       wf_tree (ct (r_path t)) = true ->
+       exists k rel, In (k, rel) (desc [] (ct (r_path t))) /\
+         e = {| ev_cls := moved_cls (kdir k); ev_src := r_path f ++ relsuffix rel;
+                ev_dest := r_path t ++ relsuffix rel; ev_synth := true |})) \/
+   (exists r, it = Single r /\ is_moved_to (r_mask r) = true /\
+      (r_path r <> [] -> last_is_sep (r_path r) = false -> wf_tree (ct (r_path r)) = true ->
+       exists k rel, In (k, rel) (desc [] (ct (r_path r))) /\
+         e = {| ev_cls := created_cls (kdir k); ev_src := r_path r ++ relsuffix rel;
+                ev_dest := []; ev_synth := true |}))).
+Proof. exact emit_synthetic. Qed.
+Print Assumptions C03_synthetic_only_descendants.
+
+(* The moved event made from a pair carries the paths of its two halves ... *)
+Theorem C03_moved_pair_paths : forall full rec root ct f t e,
+  In e (fst (emit full rec root ct (Pair f t))) -> ev_synth e = false -> cls_what (ev_cls e) = WMoved ->
+  ev_src e = r_path f /\ ev_dest e = r_path t /\ cls_isdir (ev_cls e) = is_directory (r_mask f).
+Proof. exact emit_pair_paths. Qed.
+Print Assumptions C03_moved_pair_paths.
+
+(* ... and the two halves of a pair made by the grouping of one batch are one kernel rename: same cookie. *)
+Theorem C03_moved_pair_cookie : forall C b f t,
+  In (Pair f t) (group_batch C b) ->
+  r_cookie f = r_cookie t /\ is_moved_from (r_mask f) = true /\ is_moved_to (r_mask t) = true.
+Proof. exact group_batch_pair_cookie. Qed.
+Print Assumptions C03_moved_pair_cookie.
+
+(* A DirModified event is never synthetic, has no dest, and names dirname of a path of the item - or the item's
+   own path when the raw event is IN_ATTRIB/IN_MODIFY about a directory. *)
+Theorem C03_parent_modified : forall full rec root ct it e,
+  In e (fst (emit full rec root ct it)) -> ev_cls e = DirModified ->
+  ev_synth e = false /\ ev_dest e = [] /\
+  ((exists p, In p (item_paths it) /\ ev_src e = dirname p) \/
+   (exists r, it = Single r /\ ev_src e = r_path r /\ is_directory (r_mask r) = true)).
+Proof. exact emit_dir_modified. Qed.
+Print Assumptions C03_parent_modified.
+
+(* ================================================================== completeness, one operation issued alone *)
+(* For every configuration (recursive or not, full emitter or not, pinned or repaired reader), every world and
+   every reader/kernel state with an empty kernel queue in which the watch bookkeeping covers the directories
+   the operation touches ([cover]: a directory inside the scope has a kernel watch with the full mask whose
+   descriptor maps to its path in _path_for_wd/_wd_for_path, a directory outside has none): what the kernel
+   queues, read in one batch, grouped and emitted equals the contract after collapsing adjacent duplicates.
+   The entry is written parent ++ "/" ++ name with a valid name. *)
+
+Theorem C03_contract_touch : forall C full w k r, k_queue k = [] ->
+  forall d n w', d <> [] -> last_is_sep d = false -> valid_name n = true ->
+  cover C r k (w_fs w) d ->
+  apply_op w (Touch (d ++ sep :: n)) = Some w' ->
+  exists evs, deliver_one C full w k r (Touch (d ++ sep :: n)) = Some evs /\
+    collapse evs = collapse (contract (c_recursive C) full (c_root C) (w_fs w) (Touch (d ++ sep :: n))).
+Proof. exact contract_touch. Qed.
+Print Assumptions C03_contract_touch.
+
+Theorem C03_contract_write : forall C full w k r, k_queue k = [] ->
+  forall d n w', d <> [] -> last_is_sep d = false -> valid_name n = true ->
+  cover C r k (w_fs w) d ->
+  apply_op w (Write (d ++ sep :: n)) = Some w' ->
+  exists evs, deliver_one C full w k r (Write (d ++ sep :: n)) = Some evs /\
+    collapse evs = collapse (contract (c_recursive C) full (c_root C) (w_fs w) (Write (d ++ sep :: n))).
+Proof. exact contract_write. Qed.
+Print Assumptions C03_contract_write.
+
+Theorem C03_contract_chmod_file : forall C full w k r, k_queue k = [] ->
+  forall d n w', d <> [] -> last_is_sep d = false -> valid_name n = true ->
+  cover C r k (w_fs w) d ->
+  fisdir (d ++ sep :: n) (w_fs w) = false ->
+  apply_op w (Chmod (d ++ sep :: n)) = Some w' ->
+  exists evs, deliver_one C full w k r (Chmod (d ++ sep :: n)) = Some evs /\
+    collapse evs = collapse (contract (c_recursive C) full (c_root C) (w_fs w) (Chmod (d ++ sep :: n))).
+Proof. exact contract_chmod_file. Qed.
+Print Assumptions C03_contract_chmod_file.
+
+(* a directory other than the watched root (chmod of the root itself is reported as DirModified(root), which
+   neither this contract nor the Python one describes: the root is not "in scope") *)
+Theorem C03_contract_chmod_dir : forall C full w k r, k_queue k = [] ->
+  forall d n w', d <> [] -> last_is_sep d = false -> valid_name n = true ->
+  cover C r k (w_fs w) d -> cover C r k (w_fs w) (d ++ sep :: n) ->
+  d ++ sep :: n <> c_root C ->
+  fisdir (d ++ sep :: n) (w_fs w) = true ->
+  apply_op w (Chmod (d ++ sep :: n)) = Some w' ->
+  exists evs, deliver_one C full w k r (Chmod (d ++ sep :: n)) = Some evs /\
+    collapse evs = collapse (contract (c_recursive C) full (c_root C) (w_fs w) (Chmod (d ++ sep :: n))).
+Proof. exact contract_chmod_dir. Qed.
+Print Assumptions C03_contract_chmod_dir.
+
+Theorem C03_contract_unlink : forall C full w k r, k_queue k = [] ->
+  forall d n w', d <> [] -> last_is_sep d = false -> valid_name n = true ->
+  cover C r k (w_fs w) d ->
+  apply_op w (Unlink (d ++ sep :: n)) = Some w' ->
+  exists evs, deliver_one C full w k r (Unlink (d ++ sep :: n)) = Some evs /\
+    collapse evs = collapse (contract (c_recursive C) full (c_root C) (w_fs w) (Unlink (d ++ sep :: n))).
+Proof. exact contract_unlink. Qed.
+Print Assumptions C03_contract_unlink.
+
+(* mkdir; `has_children p = false`: no entry of the tree lies directly under the not yet existing path
+   (part of the well-formedness of a tree) *)
+Theorem C03_contract_mkdir : forall C full w k r, k_queue k = [] ->
+  forall d n w', d <> [] -> last_is_sep d = false -> valid_name n = true ->
+  cover C r k (w_fs w) d ->
+  has_children (d ++ sep :: n) (w_fs w) = false ->
+  apply_op w (Mkdir (d ++ sep :: n)) = Some w' ->
+  exists evs, deliver_one C full w k r (Mkdir (d ++ sep :: n)) = Some evs /\
+    collapse evs = collapse (contract (c_recursive C) full (c_root C) (w_fs w) (Mkdir (d ++ sep :: n))).
+Proof. exact contract_mkdir. Qed.
+Print Assumptions C03_contract_mkdir.
+
+(* rmdir of a directory other than the watched root (that case is C07_root_deleted) *)
+Theorem C03_contract_rmdir : forall C full w k r, k_queue k = [] ->
+  forall d n w', d <> [] -> last_is_sep d = false -> valid_name n = true ->
+  cover C r k (w_fs w) d -> cover C r k (w_fs w) (d ++ sep :: n) ->
+  d ++ sep :: n <> c_root C ->
+  apply_op w (Rmdir (d ++ sep :: n)) = Some w' ->
+  exists evs, deliver_one C full w k r (Rmdir (d ++ sep :: n)) = Some evs /\
+    collapse evs = collapse (contract (c_recursive C) full (c_root C) (w_fs w) (Rmdir (d ++ sep :: n))).
+Proof. exact contract_rmdir. Qed.
+Print Assumptions C03_contract_rmdir.
+
+(* rename of a file: inside the scope, out of it, into it, between two places outside; the target is absent or
+   a file that is replaced *)
+Theorem C03_contract_rename_file : forall C full w k r, k_queue k = [] ->
+  forall dp np dq nq w',
+  dp <> [] -> last_is_sep dp = false -> valid_name np = true ->
+  dq <> [] -> last_is_sep dq = false -> valid_name nq = true ->
+  cover C r k (w_fs w) dp -> cover C r k (w_fs w) dq ->
+  fisdir (dp ++ sep :: np) (w_fs w) = false -> fisdir (dq ++ sep :: nq) (w_fs w) = false ->
+  apply_op w (Rename (dp ++ sep :: np) (dq ++ sep :: nq)) = Some w' ->
+  exists evs, deliver_one C full w k r (Rename (dp ++ sep :: np) (dq ++ sep :: nq)) = Some evs /\
+    collapse evs = collapse (contract (c_recursive C) full (c_root C) (w_fs w)
+                                      (Rename (dp ++ sep :: np) (dq ++ sep :: nq))).
+Proof. exact contract_rename_file. Qed.
+Print Assumptions C03_contract_rename_file.
+
+(* rename of a directory onto a name that does not exist: inside the scope (moved + both parents modified + one
+   synthetic moved per descendant in os.walk order, by C14), out of it, into it (created + synthetic created per
+   descendant).  Two facts about the tree are hypotheses: os.walk under the new name afterwards finds what it found
+   under the old name before, and the names found are valid file names. *)
+Theorem C03_contract_rename_dir_tree : forall C full w k r, k_queue k = [] ->
+  forall dp np dq nq w',
+  dp <> [] -> last_is_sep dp = false -> valid_name np = true ->
+  dq <> [] -> last_is_sep dq = false -> valid_name nq = true ->
+  cover C r k (w_fs w) dp -> cover C r k (w_fs w) dq ->
+  fisdir (dp ++ sep :: np) (w_fs w) = true -> fisdir (dq ++ sep :: nq) (w_fs w) = false ->
+  content (w_fs w') (dq ++ sep :: nq) = content (w_fs w) (dp ++ sep :: np) ->
+  wf_tree (content (w_fs w) (dp ++ sep :: np)) = true ->
+  apply_op w (Rename (dp ++ sep :: np) (dq ++ sep :: nq)) = Some w' ->
+  exists evs, deliver_one C full w k r (Rename (dp ++ sep :: np) (dq ++ sep :: nq)) = Some evs /\
+    collapse evs = collapse (contract (c_recursive C) full (c_root C) (w_fs w)
+                                      (Rename (dp ++ sep :: np) (dq ++ sep :: nq))).
+Proof. exact contract_rename_dir_tree. Qed.
+Print Assumptions C03_contract_rename_dir_tree.
+
+(* The same from well-formedness of the tree: every entry's path is parent ++ "/" ++ valid name, the target does
+   not exist and nothing lies under it. *)
+Theorem C03_contract_rename_dir : forall C full w k r, k_queue k = [] ->
+  forall dp np dq nq w',
+  dp <> [] -> last_is_sep dp = false -> valid_name np = true ->
+  dq <> [] -> last_is_sep dq = false -> valid_name nq = true ->
+  cover C r k (w_fs w) dp -> cover C r k (w_fs w) dq ->
+  fisdir (dp ++ sep :: np) (w_fs w) = true -> fexists (dq ++ sep :: nq) (w_fs w) = false ->
+  (forall e, In e (w_fs w) -> wf_path (f_path e)) ->
+  (forall e, In e (w_fs w) -> under (dq ++ sep :: nq) (f_path e) = false) ->
+  apply_op w (Rename (dp ++ sep :: np) (dq ++ sep :: nq)) = Some w' ->
+  exists evs, deliver_one C full w k r (Rename (dp ++ sep :: np) (dq ++ sep :: nq)) = Some evs /\
+    collapse evs = collapse (contract (c_recursive C) full (c_root C) (w_fs w)
+                                      (Rename (dp ++ sep :: np) (dq ++ sep :: nq))).
+Proof. exact contract_rename_dir. Qed.
+Print Assumptions C03_contract_rename_dir.
+
+(* not proved: a directory that replaces an (empty) directory - the victim's IN_ATTRIB / IN_DELETE_SELF / IN_IGNORED
+   are read after the reader has re-keyed its tables for the move *)
+Definition C03_contract_rename_dir_replacing_full : Prop := forall C full w k r, k_queue k = [] ->
+  forall dp np dq nq w',
+  dp <> [] -> last_is_sep dp = false -> valid_name np = true ->
+  dq <> [] -> last_is_sep dq = false -> valid_name nq = true ->
+  cover C r k (w_fs w) dp -> cover C r k (w_fs w) dq ->
+  cover C r k (w_fs w) (dp ++ sep :: np) -> cover C r k (w_fs w) (dq ++ sep :: nq) ->
+  fisdir (dp ++ sep :: np) (w_fs w) = true -> fisdir (dq ++ sep :: nq) (w_fs w) = true ->
+  content (w_fs w') (dq ++ sep :: nq) = content (w_fs w) (dp ++ sep :: np) ->
+  wf_tree (content (w_fs w) (dp ++ sep :: np)) = true ->
+  apply_op w (Rename (dp ++ sep :: np) (dq ++ sep :: nq)) = Some w' ->
+  exists evs, deliver_one C full w k r (Rename (dp ++ sep :: np) (dq ++ sep :: nq)) = Some evs /\
+    collapse evs = collapse (contract (c_recursive C) full (c_root C) (w_fs w)
+                                      (Rename (dp ++ sep :: np) (dq ++ sep :: nq))).
+
+(* ================================================================== history-level soundness *)
+(* Every event queued along any history of the pipeline model is justified by an operation executed before it. *)
+Definition C03_sound_full : Prop :=
+  forall P w s0 h, pc_filter P = None -> c_mask (pc_reader P) = WATCHDOG_ALL ->
+    pinit P w = Some s0 -> sound_along P s0 [] h = true.
+
+(* FALSE of the current code (known finding F10): a directory moved out of the tree keeps its kernel watch and its
+   stale in-tree path; `mkdir R/d; drain; mv R/d O/d; drain; touch O/d/g; drain` delivers FileCreated(R/d/g).
+   Holds with all three reader repairs (F1, F9, F14) switched on. *)
+Theorem C03_sound_refuted_phantom :
+  exists P w s0 h, pc_filter P = None /\ c_mask (pc_reader P) = WATCHDOG_ALL /\
+    c_fix_ignored (pc_reader P) = true /\ c_fix_movein (pc_reader P) = true /\ c_fix_simulate (pc_reader P) = true /\
+    pinit P w = Some s0 /\ sound_along P s0 [] h = false.
+Proof. exact sound_refuted_phantom. Qed.
+Print Assumptions C03_sound_refuted_phantom.
+
+Theorem C03_sound_full_refuted : ~ C03_sound_full.
+Proof. exact sound_full_false. Qed.
+Print Assumptions C03_sound_full_refuted.
+
+(* the witness, spelled out: the event names a path that does not exist; the file was created outside the tree *)
+Theorem C03_phantom_delivered :
+  exists s0 s obs, pinit ph_cfg ph_world = Some s0 /\ prun ph_cfg s0 ph_history [] = Done (s, obs) /\
+    In (mk FileCreated ph_Rdg []) (p_out s) /\ fexists ph_Rdg (w_fs (p_world s)) = false /\
+    fexists ph_Odg (w_fs (p_world s)) = true.
+Proof. exact phantom_delivered. Qed.
+Print Assumptions C03_phantom_delivered.
+
+(* ================================================================== tie to the Pipeline model *)
+(* [deliver_one] is what the Pipeline model (validated in lock-step against the real observer) delivers for
+   AOp o; ARead (whole kernel queue); ATick delay; AEmit x nit, from any state whose buffer is idle (nothing queued,
+   nothing being grouped, consumer outside get(), not closed), whose emitter has not stopped, whose kernel queue is
+   empty and whose event-id table is consistent: the events appended to p_out are exactly [deliver_one]'s list.
+   No event filter. *)
+Theorem C03_pipeline_tie : forall P s o evs,
+  pc_filter P = None -> buffer_idle (p_buf s) -> p_stopped s = false -> k_queue (p_k s) = [] ->
+  (forall id, In id (map fst (p_tbl s)) -> (id < p_next s)%N) ->
+  deliver_one (pc_reader P) (pc_full P) (p_world s) (p_k s) (p_r s) o = Some evs ->
+  exists nit s' obs, prun P s (tie_history P s o nit) [] = Done (s', obs) /\ p_out s' = p_out s ++ evs.
+Proof. exact pipeline_tie_holds. Qed.
+Print Assumptions C03_pipeline_tie.
+
+(* ================================================================== non-vacuity *)
+(* World: /R (watched), /O (outside); /R/d dir, /R/d/f file, /R/d/e empty dir, /R/x file, /O/y file, /O/z dir, /O/z/g.
+   State: right after Inotify.__init__.  [ex_ok rec full ds o l]: the kernel queue is empty, [cover] holds for the
+   directories [ds], the operation applies, [deliver_one] returns exactly [l], and [l] meets the contract. *)
+Example C03_contract_touch_nonvacuous :
+  let p := ex_sl ex_Rd 97 in
+  ex_ok true false [ex_Rd] (Touch p)
+        [mk FileCreated p []; parent_modified p; mk FileOpened p []; mk FileClosed p []; parent_modified p].
+Proof. vm_compute. repeat split; try discriminate. repeat constructor; eexists; repeat split. Qed.
+
+Example C03_contract_touch_out_of_scope_nonvacuous :      (* non-recursive watch, /R/d is not watched *)
+  ex_ok false false [ex_Rd] (Touch (ex_sl ex_Rd 97)) [].
+Proof. vm_compute. repeat split; try discriminate. repeat constructor. Qed.
+
+Example C03_contract_write_nonvacuous :
+  ex_ok true false [ex_Rd] (Write ex_Rdf)
+        [mk FileOpened ex_Rdf []; mk FileModified ex_Rdf []; mk FileClosed ex_Rdf []; parent_modified ex_Rdf].
+Proof. vm_compute. repeat split; try discriminate. repeat constructor; eexists; repeat split. Qed.
+
+Example C03_contract_chmod_file_nonvacuous :
+  ex_ok true true [ex_Rd] (Chmod ex_Rdf) [mk FileModified ex_Rdf []].
+Proof. vm_compute. repeat split; try discriminate. repeat constructor; eexists; repeat split. Qed.
+
+Example C03_contract_chmod_dir_nonvacuous :                (* two identical events, one per watch *)
+  ex_ok true false [ex_R; ex_Rd] (Chmod ex_Rd) [mk DirModified ex_Rd []; mk DirModified ex_Rd []].
+Proof. vm_compute. repeat split; try discriminate. repeat constructor; eexists; repeat split. Qed.
+
+Example C03_contract_chmod_dir_flat_nonvacuous :           (* non-recursive: only the root's watch sees it *)
+  ex_ok false false [ex_R; ex_Rd] (Chmod ex_Rd) [mk DirModified ex_Rd []].
+Proof. vm_compute. repeat split; try discriminate. repeat constructor; eexists; repeat split. Qed.
+
+Example C03_contract_unlink_nonvacuous :
+  ex_ok true false [ex_R] (Unlink ex_Rx) [mk FileDeleted ex_Rx []; parent_modified ex_Rx].
+Proof. vm_compute. repeat split; try discriminate. repeat constructor; eexists; repeat split. Qed.
+
+Example C03_contract_mkdir_nonvacuous :
+  let p := ex_sl ex_Rd 109 in
+  has_children p ex_fs = false /\
+  ex_ok true false [ex_Rd] (Mkdir p) [mk DirCreated p []; parent_modified p].
+Proof. vm_compute. repeat split; try discriminate. repeat constructor; eexists; repeat split. Qed.
+
+Example C03_contract_rmdir_nonvacuous :
+  ex_ok true false [ex_Rd; ex_Rde] (Rmdir ex_Rde) [mk DirDeleted ex_Rde []; parent_modified ex_Rde].
+Proof. vm_compute. repeat split; try discriminate. repeat constructor; eexists; repeat split. Qed.
+
+Example C03_contract_rename_file_replacing_nonvacuous :    (* /R/d/f -> /R/x, which exists *)
+  ex_ok true false [ex_Rd; ex_R] (Rename ex_Rdf ex_Rx)
+        [mk FileMoved ex_Rdf ex_Rx; parent_modified ex_Rdf; parent_modified ex_Rx].
+Proof. vm_compute. repeat split; try discriminate. repeat constructor; eexists; repeat split. Qed.
+
+Example C03_contract_rename_file_out_nonvacuous :
+  let q := ex_sl ex_O 120 in
+  ex_ok true false [ex_R; ex_O] (Rename ex_Rx q) [mk FileDeleted ex_Rx []; parent_modified ex_Rx] /\
+  ex_ok true true [ex_R; ex_O] (Rename ex_Rx q) [mk FileMoved ex_Rx []; parent_modified ex_Rx].
+Proof. vm_compute. repeat split; try discriminate; repeat constructor; eexists; repeat split. Qed.
+
+Example C03_contract_rename_file_in_nonvacuous :
+  let q := ex_sl ex_Rd 121 in
+  ex_ok true false [ex_O; ex_Rd] (Rename ex_Oy q) [mk FileCreated q []; parent_modified q] /\
+  ex_ok true true [ex_O; ex_Rd] (Rename ex_Oy q) [mk FileMoved [] q; parent_modified q].
+Proof. vm_compute. repeat split; try discriminate; repeat constructor; eexists; repeat split. Qed.
+
+Example C03_contract_rename_dir_inside_nonvacuous :        (* /R/d -> /R/n, descendants e (dir) and f (file) *)
+  let q := ex_sl ex_R 110 in
+  content (frename ex_Rd q ex_fs) q = content ex_fs ex_Rd /\ wf_tree (content ex_fs ex_Rd) = true /\
+  ex_ok true false [ex_R] (Rename ex_Rd q)
+        [mk DirMoved ex_Rd q; parent_modified ex_Rd; parent_modified q;
+         {| ev_cls := DirMoved; ev_src := ex_Rde; ev_dest := ex_sl q 101; ev_synth := true |};
+         {| ev_cls := FileMoved; ev_src := ex_Rdf; ev_dest := ex_sl q 102; ev_synth := true |}].
+Proof. vm_compute. repeat split; try discriminate. repeat constructor; eexists; repeat split. Qed.
+
+Example C03_contract_rename_dir_out_nonvacuous :
+  let q := ex_sl ex_O 100 in
+  ex_ok true false [ex_R; ex_O] (Rename ex_Rd q) [mk DirDeleted ex_Rd []; parent_modified ex_Rd] /\
+  ex_ok true true [ex_R; ex_O] (Rename ex_Rd q) [mk DirMoved ex_Rd []; parent_modified ex_Rd].
+Proof. vm_compute. repeat split; try discriminate; repeat constructor; eexists; repeat split. Qed.
+
+Example C03_contract_rename_dir_in_nonvacuous :            (* /O/z -> /R/d/z, descendant g (file) *)
+  let q := ex_sl ex_Rd 122 in
+  content (frename ex_Oz q ex_fs) q = content ex_fs ex_Oz /\ wf_tree (content ex_fs ex_Oz) = true /\
+  ex_ok true false [ex_O; ex_Rd] (Rename ex_Oz q)
+        [mk DirCreated q []; parent_modified q;
+         {| ev_cls := FileCreated; ev_src := ex_sl q 103; ev_dest := []; ev_synth := true |}].
+Proof. vm_compute. repeat split; try discriminate. repeat constructor; eexists; repeat split. Qed.
+
+Example C03_contract_rename_dir_wf_nonvacuous :            (* the tree hypotheses of C03_contract_rename_dir *)
+  let q := ex_sl ex_R 110 in
+  (forall e, In e ex_fs -> wf_path (f_path e)) /\ (forall e, In e ex_fs -> under q (f_path e) = false) /\
+  fisdir ex_Rd ex_fs = true /\ fexists q ex_fs = false.
+Proof.
+  split; [apply wf_fsb_sound; vm_compute; reflexivity|].
+  split; [apply not_under_sound; vm_compute; reflexivity|]. split; vm_compute; reflexivity.
+Qed.
+
+(* the directory-replacing rename (statement C03_contract_rename_dir_replacing_full) on the example world:
+   /O/z -> /R/d/e, an empty directory; the victim's IN_ATTRIB shows up as DirModified(/R/d/e) *)
+Example C03_contract_rename_dir_replacing_example :
+  ex_ok true false [ex_O; ex_Rd; ex_Oz; ex_Rde] (Rename ex_Oz ex_Rde)
+        [mk DirCreated ex_Rde []; parent_modified ex_Rde;
+         {| ev_cls := FileCreated; ev_src := ex_sl ex_Rde 103; ev_dest := []; ev_synth := true |};
+         mk DirModified ex_Rde []].
+Proof. vm_compute. repeat split; try discriminate. repeat constructor; eexists; repeat split. Qed.
+
+(* C03_pipeline_tie on the example world, by computation: for each of the 15 operations of [ex_ops] that applies, the Pipeline
+   run AOp; ARead; ATick; AEmit x6 from the initial state appends exactly [deliver_one]'s list to p_out -
+   recursive and non-recursive watch, normal and full emitter *)
+Example C03_pipeline_tie_examples :
+  ex_tie true false = true /\ ex_tie true true = true /\ ex_tie false false = true /\ ex_tie false true = true.
+Proof. vm_compute. repeat split. Qed.
